@@ -71,7 +71,12 @@ func TestC15Concurrent(t *testing.T) {
 			os.RemoveAll(dir)
 			continue
 		}
-		hist := concurrentHistory(conn, nkeys, nclients, opsPer, rng.Uint64(), fmt.Sprintf("h%d", i), withDelete)
+		tag := fmt.Sprintf("h%d", i)
+		if i%3 == 1 {
+			tag = fmt.Sprintf("long%d", i) // several long keys: values must not wander between keys
+			nkeys = 3
+		}
+		hist := concurrentHistory(conn, nkeys, nclients, opsPer, rng.Uint64(), tag, withDelete)
 		torn, reads := 0, 0
 		for k, ops := range hist {
 			for _, o := range ops {
